@@ -29,7 +29,7 @@ ASSUMPTIONS = ["declared mass fractions are the ones the generator wrote into th
                "tolerance 8 sigma (plain molecules) / 6 sigma with the measured size-biased member mass x 1.5 (polymer components) of the ideal "
                "independent-pick scheme + stop-rule overshoot; a rejection is re-run with another seed"]
 
-SIZES = {"quick": 64, "thorough": 1500}
+SIZES = {"quick": 64, "thorough": 800}
 
 
 def plan(tier, seed):
